@@ -2897,7 +2897,11 @@ func (s *scanner) recursivelyValidateTLA(sourceIndex uint32, pass uint32, didCha
 					parent := s.recursivelyValidateTLA(record.SourceIndex.GetIndex(), pass, didChange)
 
 					// Track the shallowest top-level await parent (used to report invalid import chains later on)
-					if record.Kind == ast.ImportStmt && parent.depth.GetIndex() < result.tlaCheck.depth.GetIndex()-1 {
+					// Break ties using the import record index so that the chain that's
+					// reported doesn't depend on the order in which files are visited
+					if record.Kind == ast.ImportStmt && (parent.depth.GetIndex() < result.tlaCheck.depth.GetIndex()-1 ||
+						(parent.depth.IsValid() && parent.depth.GetIndex() == result.tlaCheck.depth.GetIndex()-1 &&
+							uint32(importRecordIndex) < result.tlaCheck.importRecordIndex)) {
 						result.tlaCheck.parent = record.SourceIndex
 						result.tlaCheck.depth = ast.MakeIndex32(parent.depth.GetIndex() + 1)
 						result.tlaCheck.importRecordIndex = uint32(importRecordIndex)
